@@ -53,15 +53,54 @@ def SpeedUnit.fromPair (d : DistanceUnit) (t : TimeUnit) : FromPair :=
   | some u => .unit u
   | none => .panic
 
-/-- `SpeedUnit::from_str` (`string_deserialize`: the text is put between quotes and read as a JSON
-string): a serde name.  A text holding a quote or a control character is not a JSON string; a
-backslash starts an escape sequence, which is not modelled (answered `none`; the harness sends none). -/
-def SpeedUnit.fromStr (s : String) : Option SpeedUnit :=
-  if s.toList.any (fun c => c == '"' || c == '\\' || c.toNat < 32) then none else SpeedUnit.ofName? s
+/-! ### `from_str` = `string_deserialize`: the text is put between quotes and read as a JSON string
 
-/-- `from_str` of the other unit families: the same `string_deserialize` -/
+What serde_json's string reader does with the characters between the quotes: a raw quote ends the string
+early (what follows — at least the quote that was appended — is then trailing input: an error), a raw
+control character is an error, a backslash starts an escape: one of `" \ / b f n r t`, or `uXXXX` with
+four hex digits (either case).  A `\u` escape in the surrogate range is either an error (alone) or half
+of a pair that decodes to a character beyond the basic plane; the model answers `none` for both — no
+serde name holds such a character, so the answer of `from_str` is the same. -/
+
+def hexDigit? (c : Char) : Option Nat :=
+  if '0' ≤ c ∧ c ≤ '9' then some (c.toNat - '0'.toNat)
+  else if 'a' ≤ c ∧ c ≤ 'f' then some (c.toNat - 'a'.toNat + 10)
+  else if 'A' ≤ c ∧ c ≤ 'F' then some (c.toNat - 'A'.toNat + 10)
+  else none
+
+/-- the characters a JSON string body stands for, `none` when it is not a JSON string body -/
+def jsonUnescape : List Char → Option (List Char)
+  | [] => some []
+  | '\\' :: rest =>
+    match rest with
+    | [] => none
+    | 'u' :: a :: b :: c :: d :: rest' =>
+      match hexDigit? a, hexDigit? b, hexDigit? c, hexDigit? d with
+      | some x, some y, some z, some w =>
+        let n := ((x * 16 + y) * 16 + z) * 16 + w
+        if 0xD800 ≤ n ∧ n ≤ 0xDFFF then none
+        else (jsonUnescape rest').map (Char.ofNat n :: ·)
+      | _, _, _, _ => none
+    | e :: rest' =>
+      let plain : Option Char :=
+        if e == '"' then some '"' else if e == '\\' then some '\\' else if e == '/' then some '/'
+        else if e == 'b' then some (Char.ofNat 8) else if e == 'f' then some (Char.ofNat 12)
+        else if e == 'n' then some '\n' else if e == 'r' then some '\r' else if e == 't' then some '\t'
+        else none
+      match plain with
+      | some ch => (jsonUnescape rest').map (ch :: ·)
+      | none => none
+  | c :: rest =>
+    if c == '"' || c.toNat < 32 then none else (jsonUnescape rest).map (c :: ·)
+
+/-- `from_str` of a unit family: the JSON string the text stands for must be a serde name -/
 def unitFromStr {β : Type} (ofName? : String → Option β) (s : String) : Option β :=
-  if s.toList.any (fun c => c == '"' || c == '\\' || c.toNat < 32) then none else ofName? s
+  match jsonUnescape s.toList with
+  | some cs => ofName? (String.ofList cs)
+  | none => none
+
+/-- `SpeedUnit::from_str` -/
+def SpeedUnit.fromStr (s : String) : Option SpeedUnit := unitFromStr SpeedUnit.ofName? s
 
 /-- `SpeedUnit::max_american_highway_speed` -/
 def SpeedUnit.maxHighwaySpeed {α : Type} [Lit α] (u : SpeedUnit) : α :=
